@@ -263,7 +263,7 @@ def g_mark(out):
     """C11/C05/C07: the back-tracking mark of the substrate is set in exactly one place of the decoders -- in
     SingleItemDecoder.__call__, after the end-of-octets look-ahead has decided that an element follows (that region is
     under contract: position restored unless the marker was consumed, then the call returns) and before the state machine
-    starts.  A mark set elsewhere lets CachingStreamWrapper drop octets an enclosing definite-length loop still
+    starts -- unconditionally, or under `if state is stDecodeTag:` (a call that starts at a tag).  A mark set elsewhere lets CachingStreamWrapper drop octets an enclosing definite-length loop still
     addresses by absolute position."""
     sites = []
     for rel in ('pyasn1/codec/ber/decoder.py', 'pyasn1/codec/cer/decoder.py', 'pyasn1/codec/der/decoder.py',
@@ -288,6 +288,11 @@ def g_mark(out):
                 if isinstance(st, ast.If) and ast.unparse(st.test) == 'allowEoo and self.supportIndefLength':
                     kinds.append('eoo')
                 elif isinstance(st, ast.Assign) and ast.unparse(st) == 'substrate.markedPosition = substrate.tell()':
+                    kinds.append('mark')
+                elif (isinstance(st, ast.If) and ast.unparse(st.test) == 'state is stDecodeTag' and not st.orelse and
+                      [ast.unparse(b) for b in st.body] == ['substrate.markedPosition = substrate.tell()']):
+                    # ... by a call that starts at a tag: a re-entrant call that carries on behind a header already
+                    # read (alternative of an untagged CHOICE) keeps the mark at the beginning of that header
                     kinds.append('mark')
                 elif isinstance(st, ast.While) and ast.unparse(st.test) == 'state is not stStop':
                     kinds.append('loop')
